@@ -74,6 +74,36 @@ def transforms(rng, text):
         out.append(('extra-blank-lines', '\n'.join(ls)))
     return out
 
+# one document per construct whose line end matters (every rule that ends in eol): for each of them EVERY line gets, in turn, a blank
+# line after it, a blank line with spaces after it, trailing spaces, and the whole text is re-indented - systematically, not at random
+LAYOUT_DOCS = [
+    ('debate', 'DEBATESECTION 1 - Questions\n  SUBHEADING oral\n  SPEECH\n    FROM The Speaker:\n    Order, order.\n  QUESTION 2\n    FROM Mr A\n    why?\n    ANSWER\n      FROM Ms B\n      because\n  NARRATIVE\n    they left\n'),
+    ('act', 'PREFACE\n  LONGTITLE An Act\n  text\nPREAMBLE\n  whereas\nBODY\nPART 1 - General\n  SUBHEADING sub\n  CROSSHEADING cross\n  SEC 1. - Title\n    (1) text\n    SUBSEC (a)\n      more\nCONCLUSIONS\n  signed\n'),
+    ('act', 'SEC 1\n  BULLETS\n    * one\n    *\n    * two\n      nested\n  after\n  ITEMS\n    intro\n    ITEM (a) - h\n      x\n    ITEM (b)\n    wrap\n  BLOCKLIST\n    ITEM\n      y\n'),
+    ('act', 'SEC 1\n  TABLE.cls{a b}\n    TR\n      TH{colspan 2}\n        head\n      TC\n        cell\n        second\n    TR\n      TC\n  QUOTE{startQuote "}\n    SEC 2\n      quoted\n  BLOCKS\n    in blocks\n  P.c text\n'),
+    ('act', 'SEC 1 - h {{FOOTNOTE 1}}\n  x {{FOOTNOTE 2}} **b** //i//\n  FOOTNOTE 1\n    one\n  FOOTNOTE 2\n    two\n    TABLE\n      TR\n        TC\n          in note\nSCHEDULE First\n  SUBHEADING s\n  text\n  ANNEXURE\n    inner\n'),
+    ('judgment', 'INTRODUCTION\n  the parties\nBACKGROUND\n  facts\n  PARA 1.\n    one\nDECISION\n  dismissed\nCONCLUSIONS\n  signed\n'),
+    ('doc', 'PREFACE\n  p\nBODY\n  text {{IMG a.png alt}}\n  PARA (a)\n    x\n  CROSSHEADING c\nATTACHMENT\n  a\n'),
+]
+
+def layout_jobs():
+    jobs, index = [], []
+    for root, t in LAYOUT_DOCS:
+        lines = t.rstrip('\n').split('\n')
+        jobs.append((t, root)); index.append((root, t, None))
+        for i in range(len(lines)):
+            for name, ins in (('blank-line-after-line-%d' % i, ['']), ('spaces-only-line-after-line-%d' % i, ['   ']), ('two-blank-lines-after-line-%d' % i, ['', ''])):
+                t2 = '\n'.join(lines[:i + 1] + ins + lines[i + 1:]) + '\n'
+                jobs.append((t2, root)); index.append((root, t, (name, t2)))
+            t2 = '\n'.join(lines[:i] + [lines[i] + '  '] + lines[i + 1:]) + '\n'
+            jobs.append((t2, root)); index.append((root, t, ('trailing-spaces-on-line-%d' % i, t2)))
+        for k in (2, 3):
+            t2 = '\n'.join(' ' * ((len(l) - len(l.lstrip(' '))) * k) + l.lstrip(' ') for l in lines) + '\n'
+            jobs.append((t2, root)); index.append((root, t, ('indent-x%d' % k, t2)))
+        t2 = '\n'.join('\t' * ((len(l) - len(l.lstrip(' '))) // 2) + l.lstrip(' ') for l in lines) + '\n'
+        jobs.append((t2, root)); index.append((root, t, ('tabs', t2)))
+    return jobs, index
+
 def pre_cases(ctx, budget):
     out = []
     ml = ctx.n(5, 6) + (1 if budget > 1 else 0); widths = list(range(0, ctx.n(5, 7)))
@@ -137,6 +167,8 @@ def search(ctx, budget):
         jobs.append((t, root)); index.append((root, t, None))
         for name, t2 in transforms(ctx.rng, t):
             jobs.append((t2, root)); index.append((root, t, (name, t2)))
+    lj, li = layout_jobs()
+    jobs += lj; index += li
     res = impl.pmap(impl.e2e, jobs, chunk=32)
     base = None
     for (root, t, tr), r in zip(index, res):
